@@ -17,6 +17,16 @@ CONSTS = {"c0": 0.5, "c1": -1.25, "c2": 3.0, "s2": 2.0,
           "A2": np.array([1.5, -0.625]), "A21": np.array([[0.375], [-1.75]]), "A3": np.array([0.75, -1.375, 2.25])}
 
 
+def make_leaf(shape, offset, seed, rest):
+    """leaf array for an init entry (name, shape, offset, const[, 'F' | ('val', x)])"""
+    if rest and isinstance(rest[0], (tuple, list)) and rest[0][0] == "val":
+        return np.full(shape, float(rest[0][1]))
+    v = leaf_values(shape, offset, seed)
+    if rest and rest[0] == "F":
+        v = np.asfortranarray(v)
+    return v
+
+
 def leaf_values(shape, offset, seed=0):
     n = int(np.prod(shape)) if len(shape) else 1
     v = [VALS[(i + offset + seed) % len(VALS)] + 0.0625 * ((i + offset) // len(VALS)) for i in range(n)]
@@ -74,6 +84,9 @@ OPS1 = {
     "exp": ("mg.exp({0})", lambda t: __import__("mygrad").exp(t), lambda a: np.exp(a), lambda s: True),
     "cube": ("{0} ** 3", lambda t: t**3, lambda a: a**3, lambda s: True),
     "mean_1": ("{0}.mean(axis=-1)", lambda t: t.mean(axis=-1), lambda a: a.mean(axis=-1), lambda s: len(s) >= 1),
+    "maxall": ("{0}.max()", lambda t: t.max(), lambda a: a.reshape(-1)[np.argmax(a.real)], lambda s: len(s) >= 1),
+    "minall": ("{0}.min()", lambda t: t.min(), lambda a: a.reshape(-1)[np.argmin(a.real)], lambda s: len(s) >= 1),
+    "max0": ("{0}.max(axis=0)", lambda t: t.max(axis=0), lambda a: np.take_along_axis(a, np.argmax(a.real, axis=0)[None], 0)[0], lambda s: len(s) >= 1),
     "sum": ("{0}.sum()", lambda t: t.sum(), lambda a: a.sum(), lambda s: True),
     "sum0": (
         "{0}.sum(axis=0, keepdims=True)",
@@ -101,6 +114,7 @@ OPS2 = {
     "sub": ("{0} - {1}", operator.sub, operator.sub),
     "mul": ("{0} * {1}", operator.mul, operator.mul),
     "div": ("{0} / {1}", operator.truediv, operator.truediv),
+    "pow": ("{0} ** {1}", operator.pow, operator.pow),
     "matmul": ("{0} @ {1}", operator.matmul, operator.matmul),
     "max": ("mg.maximum({0}, {1})", _mg("maximum"), _cmax),
     "min": ("mg.minimum({0}, {1})", _mg("minimum"), _cmin),
@@ -126,7 +140,12 @@ INDICES = {
 
 
 def alt_mask(shape, phase=0):
+    """boolean masks: alternating (phase 0/1), all False ("F"), all True ("T")"""
     n = int(np.prod(shape)) if len(shape) else 1
+    if phase == "F":
+        return np.zeros(shape, dtype=bool)
+    if phase == "T":
+        return np.ones(shape, dtype=bool)
     return (np.arange(n).reshape(shape) + phase) % 2 == 0
 
 
@@ -158,9 +177,7 @@ class Model:
         self._fam_ub = {}  # family -> ultimate base object (strong ref)
         self.anc = {}  # (family, version) -> set of ancestor (family, version) nodes (liberal dataflow)
         for name, shape, offset, const, *rest in init:
-            arr = leaf_values(shape, offset, seed).astype(dtype)
-            if rest and rest[0] == "F":
-                arr = np.asfortranarray(arr)
+            arr = make_leaf(shape, offset, seed, rest).astype(dtype)
             self._new_owner(name, arr, const)
         self._maybe_inject()
 
@@ -363,10 +380,7 @@ class Impl:
         self.t = {}
         self.order = []
         for name, shape, offset, const, *rest in init:
-            v = leaf_values(shape, offset, seed)
-            if rest and rest[0] == "F":
-                v = np.asfortranarray(v)
-            self.t[name] = mg.tensor(v, constant=const)
+            self.t[name] = mg.tensor(make_leaf(shape, offset, seed, rest), constant=const)
             self.order.append(name)
 
     def value_of(self, val):
@@ -482,7 +496,7 @@ def render(st):
     if k == "out":
         if st[5] is None:
             return "mg.%s(%s, %s, out=%s)" % (st[2], render_val(st[3]), render_val(st[4]), st[1])
-        return "np.%s(%s, %s, out=%s, where=alt_mask(%s.shape, %d))" % (
+        return "np.%s(%s, %s, out=%s, where=alt_mask(%s.shape, %r))" % (
             st[2], render_val(st[3]), render_val(st[4]), st[1], st[1], st[5])
     if k == "setshape":
         return "%s.shape = %r" % (st[1], tuple(st[2]))
@@ -502,10 +516,12 @@ def script(init, history, seed=0, tail=""):
         "import numpy as np, mygrad as mg",
         "def alt_mask(shape, phase=0):",
         "    n = int(np.prod(shape)) if len(shape) else 1",
+        "    if phase == 'F': return np.zeros(shape, dtype=bool)",
+        "    if phase == 'T': return np.ones(shape, dtype=bool)",
         "    return (np.arange(n).reshape(shape) + phase) % 2 == 0",
     ]
     for name, shape, offset, const, *rest in init:
-        val = "np.array(%s)" % np.array2string(leaf_values(tuple(shape), offset, seed), separator=", ").replace("\n", "")
+        val = "np.array(%s)" % np.array2string(np.ascontiguousarray(make_leaf(tuple(shape), offset, seed, rest)), separator=", ").replace("\n", "")
         if rest and rest[0] == "F":
             val = "np.asfortranarray(%s)" % val
         lines.append("%s = mg.tensor(%s, constant=%r)" % (name, val, const))
